@@ -55,6 +55,8 @@ SliceTab ==
     "ratesS" :> S(MIX, K1, {"neg"}, {"+", "*"}, TRUE, {}, {}, {2}, 1, "Out", 1, FALSE) @@
     "divS"   :> S(AR2, <<>>, {"neg"}, {"/"}, FALSE, {}, {}, {}, 2, "Out", 2, FALSE) @@
     "reoptS" :> S(SH, <<>>, {}, {"+"}, FALSE, {3}, {}, {}, 1, "Out", 2, FALSE) @@
+    "arrS"   :> S(MIX, <<>>, {}, {}, FALSE, {}, {}, {0, 2}, 0, "Arr", 2, TRUE) @@
+    "arrM"   :> S(MIX, K3, {}, {}, FALSE, {}, {}, {0, 2, 0 - 1}, 0, "Arr", 2, TRUE) @@
     "twoS"   :> S(MIX, <<>>, {"neg"}, {"+", "*"}, FALSE, {}, {}, {2}, 1, "Out2", 2, FALSE) @@
     "zeroS"  :> S(AR2, <<>>, {"neg"}, {"+", "*"}, FALSE, {}, {}, {0}, 1, "Out0", 2, FALSE) @@
     "localS" :> S(MIX, <<>>, {"neg"}, {"+"}, FALSE, {}, {}, {2}, 1, "LocalOut", 1, FALSE) @@
@@ -113,7 +115,7 @@ AddGen == ~done /\ NOps < Slice.n /\ \E cls \in Slice.gens, rate \in {1, 2}, a \
                   nout == IF c.nout < 0 THEN 2 ELSE c.nout
                   args == [j \in 1..c.lo |-> IF j = 1 THEN a ELSE C(1)] IN
               rate \in c.rates /\ Try(Gen(cls, rate, nout, args))
-Finish == /\ ~done /\ Slice.sink # "Out2"
+Finish == /\ ~done /\ Slice.sink \notin {"Out2", "Arr"}
           /\ \E a \in Signals :
                LET fixed == IF Slice.sink = "LocalOut" THEN <<>> ELSE <<C(0)>>
                    zero == IF Slice.sink = "Out0" THEN <<C(0)>> ELSE <<>>       \* a literal 0 channel (becomes silence)
@@ -128,7 +130,20 @@ Finish2 == /\ ~done /\ Slice.sink = "Out2"
                LET p2 == Program(prog.ins \o <<Gen("Out", 2, 0, <<C(0), a>>), Gen("ReplaceOut", 1, 0, <<C(1), b>>)>>) IN
                /\ Decidable(p2) /\ MustCompile(p2)
                /\ prog' = p2 /\ done' = TRUE /\ UNCHANGED sl
-Next == AddUn \/ AddBin \/ AddMAdd \/ AddSum \/ AddGen \/ Finish \/ Finish2
+\* output units with channel ARRAYS (sink "Arr"): every output class, 2..3 channels drawn from all signals and
+\* constants in every position (so mixed-rate arrays with the bad channel first / in the middle / last occur),
+\* given flat or as nested lists; valid and invalid programs alike (C02 decides which must raise)
+SinkFixed(cls) == CASE cls = "LocalOut" -> <<>> [] cls = "XOut" -> <<C(0), C(1)>> [] OTHER -> <<C(0)>>
+ArrSinks == {"Out", "ReplaceOut", "OffsetOut", "LocalOut", "XOut"}
+FinishArr == /\ ~done /\ Slice.sink = "Arr"
+             /\ \E cls \in ArrSinks, k \in 2..3 : \E xs \in [1..k -> Atoms] :
+                  \E shape \in (IF k = 3 THEN {"flat", "head", "tail", "deep"} ELSE {"flat"}) :
+                    LET ins == IF shape = "flat" THEN Gen(cls, 2, 0, SinkFixed(cls) \o xs)
+                               ELSE [op |-> "sinkn", cls |-> cls, sel |-> shape, rate |-> 2, nout |-> 0, a |-> SinkFixed(cls) \o xs]
+                        p2 == Program(Append(prog.ins, ins)) IN
+                    /\ ProgShapeOK(p2)
+                    /\ prog' = p2 /\ done' = TRUE /\ UNCHANGED sl
+Next == AddUn \/ AddBin \/ AddMAdd \/ AddSum \/ AddGen \/ Finish \/ Finish2 \/ FinishArr
 Spec == Init /\ [][Next]_vars
 
 (* the same generator for random walks (tlc -simulate): every action proposes ONE randomly drawn
@@ -145,7 +160,7 @@ RAddGen == ~done /\ NOps < Slice.n /\ Slice.gens # {} /\ \E cls \in Pick(Slice.g
                   nout == IF c.nout < 0 THEN 2 ELSE c.nout
                   args == [j \in 1..c.lo |-> IF j = 1 THEN a ELSE C(1)] IN
               rate \in c.rates /\ Try(Gen(cls, rate, nout, args))
-RFinish == /\ ~done /\ NOps >= Slice.n \div 2 /\ Slice.sink # "Out2"
+RFinish == /\ ~done /\ NOps >= Slice.n \div 2 /\ Slice.sink \notin {"Out2", "Arr"}
            /\ \E a \in Pick(Signals) :
                LET fixed == IF Slice.sink = "LocalOut" THEN <<>> ELSE <<C(0)>>
                    zero == IF Slice.sink = "Out0" THEN <<C(0)>> ELSE <<>>       \* a literal 0 channel (becomes silence)
@@ -201,9 +216,10 @@ NaiveM(p) == NaiveAcc(p).m
 Parsed(d) == [ok |-> 1, err |-> "", errc |-> "", magic |-> "SCgf", version |-> 2, ndefs |-> 1, consumed |-> 0, total |-> 0, defs |-> <<d>>]
 
 \* ... or a unit with a side effect removed from the certificate
-NaiveOK == done => /\ ImplWhy(prog, NaiveDef(prog), NaiveM(prog)) = "ok"
+Plain(p) == \A n \in 1..Len(p.ins) : p.ins[n].op \in {"gen", "un", "bin", "madd", "sum"}
+NaiveOK == (done /\ Plain(prog)) => /\ ImplWhy(prog, NaiveDef(prog), NaiveM(prog)) = "ok"
                    /\ ScgfWhy(Parsed(NaiveDef(prog)), prog.name) = "ok"
-DropDetected == done => LET m == NaiveM(prog)
+DropDetected == (done /\ Plain(prog)) => LET m == NaiveM(prog)
                             s == CHOOSE s \in GenIns(prog) : ClassTab[prog.ins[s].cls].se IN
                         ImplWhy(prog, NaiveDef(prog), [m EXCEPT ![s] = 0]) # "ok"
 Emit == done => PrintT(<<"PROG", ToJson(prog)>>)
